@@ -20,8 +20,9 @@ VERIF = os.path.dirname(os.path.dirname(os.path.abspath(__file__)))
 REPO = os.environ.get("VERIF_REPO", "/repo")
 SPEC = os.path.join(VERIF, "spec")
 HARNESS = os.path.join(VERIF, "harness")
-EVID = os.path.join(VERIF, "evidence")
 WORKROOT = os.path.join(VERIF, ".work")
+# evidence is about /repo itself; runs against another tree (mutation / seeded-change runs) keep theirs in scratch
+EVID = os.path.join(VERIF, "evidence") if REPO == "/repo" else os.path.join(WORKROOT, "mut-evidence")
 GOENV = dict(GOFLAGS="-mod=mod", GOPROXY="off", GOSUMDB="off", GOTOOLCHAIN="local")
 TLC_CP = "/opt/veriftools/tla/tla2tools.jar:/opt/veriftools/tla/CommunityModules-deps.jar"
 
